@@ -36,3 +36,6 @@ func VerifSetClientTransport(c *Client, t Transport)   { c.transport = t }
 func VerifComponentTransport(c *Component) Transport   { return c.transport }
 func VerifClientConfig(c *Client) *Config              { return c.config }
 func VerifStreamManagerResume(sm *StreamManager) error { return sm.resume() }
+
+// VerifEventState exposes the connection state carried by an Event (its field is unexported).
+func VerifEventState(e Event) ConnState { return e.State.state }
